@@ -669,7 +669,9 @@ func runRnsHistory(rc *RunCtx) {
 	// 1..3 targeted sequences, interleaved with PRNG steps
 	nseq := 1 + rc.Intn(3)
 	for i := 0; i < nseq; i++ {
-		switch rc.Intn(11) {
+		switch rc.Intn(12) {
+		case 11:
+			g.seqBidThenBuy()
 		case 10:
 			g.seqStrangerRelists()
 		case 9:
@@ -855,5 +857,43 @@ func (g *rnsGen) seqStrangerRelists() {
 		}
 		b := g.otherThan(g.ownerIdx(n))
 		return g.do(b, &rnstypes.MsgBuy{Creator: g.acc(b), Name: n})
+	})
+}
+
+// seqBidThenBuy: an account has an open bid on a name and then buys that name through its owner's listing. The bid
+// stays the bidder's (escrowed until cancelled or accepted), whoever owns the name afterwards.
+func (g *rnsGen) seqBidThenBuy() {
+	var n string
+	var b int
+	g.enqueue(func() bool {
+		v, ok := g.ensureLive()
+		if !ok {
+			return false
+		}
+		n = v
+		o := g.ownerIdx(n)
+		if o < 0 {
+			n = ""
+			return true
+		}
+		b = g.otherThan(o)
+		if !g.do(b, &rnstypes.MsgBid{Creator: g.acc(b), Name: n, Bid: sdk.NewInt64Coin(rnsDenomA, int64(1000+g.rc.Intn(100000)))}) {
+			return false
+		}
+		if _, listed := g.w.st.Sales[n]; listed {
+			return true
+		}
+		return g.do(o, &rnstypes.MsgList{Creator: g.acc(o), Name: n, Price: sdk.NewInt64Coin(rnsDenomA, int64(1000+g.rc.Intn(1_000_000)))})
+	}, func() bool {
+		if n == "" {
+			return true
+		}
+		return g.do(b, &rnstypes.MsgBuy{Creator: g.acc(b), Name: n})
+	}, func() bool {
+		if n == "" {
+			return true
+		}
+		// the buyer takes its bid back
+		return g.do(b, &rnstypes.MsgCancelBid{Creator: g.acc(b), Name: n})
 	})
 }
